@@ -210,11 +210,13 @@ pub fn gen_dtype(r: &mut Rng, allowed: u8) -> DType {
 }
 
 pub const EXT_NS_POOL: [&str; 4] = ["ext", "nor", "a-b_c", "Q9"];
-pub const EXT_URL_POOL: [&str; 4] = [
+pub const EXT_URL_POOL: [&str; 6] = [
     "http://www.libe57.org/E57_EXT_surface_normals.txt",
     "http://example.org/e57/ext",
     "urn:sim:ext",
     "http://example.org/q?a=1",
+    "http://example.org/q?a=1&b=2",
+    "http://example.org/\"quoted\"/<x>'",
 ];
 pub const EXT_NAME_POOL: [&str; 8] = ["normalX", "classification", "some-thing_1", "A", "z9", "intensity", "cartesianX", "rowIndex"];
 
